@@ -96,6 +96,7 @@ func (in *Interp) resetPath() {
 	in.pc = in.pc[:0]
 	in.pcSet = nil
 	in.bind = nil
+	in.rng = nil
 	in.bindMemo = nil
 	in.pos = 0
 	in.steps = 0
@@ -152,6 +153,7 @@ func (in *Interp) addPC(c *Term) {
 	}
 	in.pcSet[c.id] = true
 	in.pc = append(in.pc, c)
+	in.noteBound(c)
 }
 
 func (in *Interp) bindVar(v, c *Term) {
@@ -221,6 +223,21 @@ func (in *Interp) branch(c *Term) bool {
 	// new decision
 	tFeas, fFeas := false, false
 	unk := false
+	if ts := in.triState(c, 0); ts >= 0 {
+		// decided by the variable intervals the path condition implies
+		d := &decision{kind: dBranch, val: int64(ts), forced: true}
+		if in.cur != nil {
+			d.what = shortPos(in.fset, in.cur.pos)
+		}
+		in.trace = append(in.trace, d)
+		in.pos++
+		if ts == 1 {
+			in.addPC(c)
+			return true
+		}
+		in.addPC(BNot(c))
+		return false
+	}
 	if in.modelSatisfies(c) {
 		tFeas = true
 	} else if in.modelSatisfies(BNot(c)) {
